@@ -486,7 +486,16 @@ impl<'a> World<'a> {
                 let repo = self.tester.open_message_repository.clone();
                 if let Ok(Some(mut om)) = repo.get_open_message(&x.real()).await {
                     om.expires_at = Some(Utc::now() - chrono::Duration::seconds(30));
-                    if !om.is_certified {
+                    let already_sealed = self
+                        .tester
+                        .dependencies
+                        .certificate_repository
+                        .get_latest_certificates::<Certificate>(100_000)
+                        .await
+                        .unwrap()
+                        .iter()
+                        .any(|c| !c.is_genesis() && c.signed_entity_type() == x.real());
+                    if !om.is_certified && !already_sealed {
                         self.expired.insert(*x);
                     }
                     repo.update_open_message(&om).await.unwrap();
